@@ -70,11 +70,12 @@ Definition classify (ret : Z) (ls : list line) : verdict :=
   then if existsb (containsb ERR) ls then VInconsistent else VOk
   else if existsb error_lineb ls then VDiagnosed else VInconsistent.
 
-(* splitting the raw diagnostics text at '\n' (a trailing fragment without '\n' is a line) *)
+(* splitting the raw diagnostics text at '\n' (a trailing fragment without '\n' is a line).
+   rev_append, not rev: List.rev is quadratic and diagnostics can quote 10^5-character tokens *)
 Fixpoint split_lines_aux (s : list N) (cur : line) : list line :=
   match s with
-  | [] => match cur with [] => [] | _ => [rev cur] end
-  | c :: r => if c =? NL then rev cur :: split_lines_aux r [] else split_lines_aux r (c :: cur)
+  | [] => match cur with [] => [] | _ => [rev_append cur []] end
+  | c :: r => if c =? NL then rev_append cur [] :: split_lines_aux r [] else split_lines_aux r (c :: cur)
   end.
 
 Definition split_lines (s : list N) : list line := split_lines_aux s [].
